@@ -3,6 +3,7 @@ package http2
 import (
 	"bytes"
 	"errors"
+	"math"
 	"strconv"
 )
 
@@ -59,7 +60,14 @@ func parseUint(b []byte) (int, error) {
 			return 0, errInvalidUint
 		}
 
-		n = n*10 + int(c-'0')
+		d := int(c - '0')
+		// n*10 + d must fit in an int: past that it wraps around to a small
+		// or negative number that then passes for a length.
+		if n > (math.MaxInt-d)/10 {
+			return 0, errInvalidUint
+		}
+
+		n = n*10 + d
 	}
 
 	return n, nil
